@@ -15,6 +15,7 @@ if TYPE_CHECKING:
 
 from autoarray.structures.arrays import array_2d_util
 from autoconf import conf
+from autoconf.tools.decorators import CachedProperty
 
 
 def to_new_array(func):
@@ -81,9 +82,7 @@ class AbstractNDArray(ABC):
     __no_flatten__ = ()
 
     def invert(self):
-        new = self.copy()
-        new._array = np.invert(new._array)
-        return new
+        return self.with_new_array(np.invert(self._array))
 
     @classmethod
     def instance_flatten(cls, instance):
@@ -145,6 +144,13 @@ class AbstractNDArray(ABC):
         """
         new_array = self.copy()
         new_array._array = array
+        # cached quantities describe the old contents: the new object must recompute them
+        for key in [
+            key
+            for key in new_array.__dict__
+            if isinstance(getattr(type(new_array), key, None), CachedProperty)
+        ]:
+            del new_array.__dict__[key]
         return new_array
 
     def copy(self):
